@@ -463,7 +463,10 @@ impl<'a> FamVisitor for RVisit<'a> {
             // the buffer may have grown under an earlier, larger max_len: bound by the largest limit seen so far
             let seen_max = if knob_at > 0 && s.r_max_len_mode != 0 { (512 * 1024usize).max(knob_len) } else { max_len };
             seen_max_final = seen_max;
-            let base_bound = seen_max.max(init_cap).max(64);
+            // a NEW allocation made during this read is judged against the limit in force now: capacity inherited from the
+            // caller or from an earlier, larger limit may stay (see `cap_check`), but nothing larger than the current
+            // maximum may be requested for a frame
+            let base_bound = max_len;
             let at = format!("read #{i}");
             obs.borrow_mut().event(ev::ISSUE, i as u64);
             let calls_before = core.borrow().calls;
@@ -484,7 +487,7 @@ impl<'a> FamVisitor for RVisit<'a> {
             // from the buffer or are scalars (an error value at most), a generous multiple of the payload for owning ones
             let lean = matches!(F::TY, Ty::U64 | Ty::Str | Ty::ByteSliceRef | Ty::Unit | Ty::Nothing | Ty::Tuple3 | Ty::OptStr | Ty::SelfDesc | Ty::Embedded);
             let decode_slop = if lean {
-                256
+                96
             } else if i < expected.len() && matches!(expected[i], Exp::Value(_) | Exp::DecodeErr) {
                 64 * payload_lens[i] + 4096
             } else {
@@ -975,6 +978,15 @@ impl Property for P14 {
         // the 'no limit' setting: set_max_len(u32::MAX) on both sides
         out.push(C14 { w_max_len_mode: 9, r_max_len_mode: 9, ..base(Ty::Str, vals(Ty::Str, &[0, 5, 300])) });
         out.push(C14 { w_max_len_mode: 9, r_max_len_mode: 9, w_knob_at: 1, r_knob_at: 1, r_src: vec![Step::Xfer(1); 40], ..base(Ty::Str, vals(Ty::Str, &[0, 5, 300])) });
+        // a long history in which the limit is lowered late: a large frame early, a medium one later, then set_max_len(16)
+        // before frame 400 of 600 -- whatever housekeeping the reader does afterwards must respect the limit in force then
+        {
+            let items: Vec<WKind> = (0..600u64)
+                .map(|i| WKind::Val(ValSpec { ty: Ty::Str, size: match i { 10 => 5000, 300 => 300, _ => (i % 3) as u32 }, seed: i }))
+                .collect();
+            out.push(C14 { r_max_len_mode: 3, r_knob_at: 400, ..base(Ty::Str, items.clone()) });
+            out.push(C14 { r_max_len_mode: 3, r_knob_at: 400, r_src: vec![Step::Xfer(3), Step::Err(ErrKind::Interrupted)], lane_repeat: 2000, ..base(Ty::Str, items) });
+        }
         // (k) more than 65536 frames through one writer and one reader (16-bit counters)
         out.push(base(Ty::U64, (0..65_700u64).map(|i| WKind::Val(ValSpec { ty: Ty::U64, size: 0, seed: i })).collect()));
         out
@@ -1101,6 +1113,14 @@ impl Property for P14 {
         }
         let cut = if r.chance(1, 4) && len > 0 { Some(r.below(len as u64 + 1) as u32) } else { None };
         let roomy_w = r.chance(1, 2);
+        // a big frame moved in uniform small pieces from its first to its last byte, on both sides
+        let mut uniform_repeat = None;
+        let (mut r_src, mut w_sink) = (r_src, w_sink);
+        if big && !r_fatal && !w_fatal && r.chance(1, 4) {
+            r_src = vec![Step::Xfer(*r.pick(&[1u32, 1, 2, 7, 1448, 4096]))];
+            w_sink = vec![Step::Xfer(*r.pick(&[1u32, 3, 1448, 4096, 65_536]))];
+            uniform_repeat = Some(1u32 << 20);
+        }
         C14 {
             family,
             items,
@@ -1122,7 +1142,7 @@ impl Property for P14 {
             touch: r.chance(1, 3),
             scribble: r.chance(1, 3),
             r_exact: r.chance(1, 3),
-            lane_repeat: gen_repeat(r, shape.history || shape.marathon),
+            lane_repeat: uniform_repeat.unwrap_or_else(|| gen_repeat(r, shape.history || shape.marathon)),
         }
     }
 
